@@ -367,7 +367,12 @@ def find_children_for_parent(var_collector: Collector, parent_node: ParentNode, 
     elif is_list_like(variable_type):
         return process_list_breadth_first(var_collector, parent_node, builtin_base(variable_type).__iter__(value))
     elif isinstance(value, Exception):
-        return process_list_breadth_first(var_collector, parent_node, value.args)
+        # what it was raised with, and the attributes an application exception carries (a code, the offending record)
+        nodes = process_list_breadth_first(var_collector, parent_node, value.args)
+        attributes = getattr(value, '__dict__', None)
+        if isinstance(attributes, dict):
+            nodes += process_dict_breadth_first(parent_node, variable_type.__name__, attributes, correct_names)
+        return nodes
     elif isinstance(getattr(value, '__dict__', None), dict):
         return process_dict_breadth_first(parent_node, variable_type.__name__, value.__dict__, correct_names)
     else:
